@@ -30,7 +30,7 @@ def cumops_(input, dim, ops):
     '''
     L, v = input.shape[dim], input
     assert dim != -1 or dim != v.shape[-1], "Invalid dim"
-    for i in torch.pow(2, torch.arange((L-1).bit_length(), device=v.device, dtype=torch.int64)):
+    for i in torch.pow(2, torch.arange(max(L-1, 0).bit_length(), device=v.device, dtype=torch.int64)):
         index = torch.arange(i, L, device=v.device, dtype=torch.int64)
         v.index_copy_(dim, index, ops(v.index_select(dim, index-i), v.index_select(dim, index)))
     return v
